@@ -159,4 +159,44 @@ def oracle(ctx):
                 break
     if meta:
         res.samples.append(dict(kind='oracle-case', exec_line=unhx(meta[0][2]), intended_tail=meta[0][3]))
+    # every command line of one service starts with the same base command (the executable and the global arguments), whatever else the
+    # unit holds — in particular whatever [Service] keys of the user's make the converter rewrite entries after a line was stored
+    import canon
+    GW = ['--log-level', 'debug info', '--root', '/var/lib/my containers', '--x=a b', "it's", 'q"r', 'plain', 'tab\there', '']
+    def dqw(w):
+        return '"' + w.replace('\\', '\\\\').replace('"', '\\"').replace('\t', '\\t') + '"'
+    bases, bops = [], []
+    for _ in range(240 if ctx.thorough else 60):
+        ty = rnd.choice(['container', 'container', 'kube', 'pod', 'volume', 'network', 'image', 'build'])
+        gw = [rnd.choice(GW) for _ in range(rnd.randint(1, 4))]
+        L = ['[' + G.SEC[ty] + ']'] + list(G.BASE[ty]) + ['GlobalArgs=' + ' '.join(dqw(w) for w in gw)]
+        mod = rnd.choice([None, '/etc/my conf/m.conf', '/etc/m.conf'])
+        if mod:
+            L.append('ContainersConfModule=' + mod)
+        svc = rnd.sample(['Type=notify', 'NotifyAccess=all', 'NotifyAccess=main', 'Type=oneshot', 'Type=simple', 'Restart=always', 'KillMode=mixed', 'RemainAfterExit=yes', 'SyslogIdentifier=x y'],
+                         rnd.randint(0, 3))
+        if svc:
+            L = (['[Service]'] + svc + L) if rnd.random() < 0.5 else (L + ['[Service]'] + svc)
+        text = '\n'.join(L) + '\n'
+        want = ['/usr/bin/podman'] + (['--module', mod] if mod else []) + gw
+        bases.append((ty, text, want))
+        bops.append(f'convert\t0\t0\t{hx("/q/b." + ty)}\t{hx(text)}')
+    for (ty, text, want), op, a in zip(bases, bops, ctx.impl(bops)):
+        r = canon.parse_convert(a)[0]
+        if r[0] != 'svc':
+            continue
+        res.oracle_evals += 1
+        lines = [(k, v) for k, v in r[2].get('Service', []) if k.startswith('Exec') and '/usr/bin/podman' in v]
+        outs = ctx.model(['spec_split_exec\t' + hx(v) for k, v in lines])
+        for (k, v), b in zip(lines, outs):
+            words = [unhx(t) for t in b[4:-1].split(' ') if t == 'x' or t] if b.startswith('ok [') else None
+            if words is None:
+                res.oracle_failures.append(dict(op=op, input=text, impl_output=f'{k}={v}', oracle_expectation='the line splits'))
+                break
+            if words and words[0].startswith('-'):
+                words[0] = words[0][1:]
+            if words[:len(want)] != want and sorted(words[:len(want)]) != sorted(want):
+                res.oracle_failures.append(dict(op=op, input=text, impl_output=f'{k}: {words[:len(want) + 2]}',
+                                                oracle_expectation=f'{k}= starts with the base command {want} (executable, --module, the global arguments as written)'))
+                break
     ctx.log(f'oracle: {res.oracle_evals} evaluations, {len(res.oracle_failures)} failures')
